@@ -26,9 +26,9 @@ PROPS = {
         "level_note": "Trusted: as C01; the Writer model is tied by the write correspondence stream (kinds of the records the real Writer emits vs the model, generated files of every SEC/IAT/ADV, all residues mod 10). Line endings and the per-batch counts in controls are checked by the oracle on the bytes.",
     },
     "C03": {
-        "streams": [("validate", 3000, 40000)],
-        "level_text": "Proof: check-digit specification (unique digit making the 3-7-1 sum a multiple of 10, all sums), hash = sum mod 10^10, classification tables (five copies of the credit/debit lists agree, partition the standard codes, agree with CreditOrDebit - regenerated tables, kernel evaluation), and soundness of acceptance: a batch/file accepted by the model of Batch.verify / File.ValidateWith satisfies every clause of the property. The model may over-accept (opaque conjuncts only reject more). Partial for IAT/ADV batches of in-memory files (known finding D6).",
-        "level_note": "Trusted: the hand-written validation model mirrors batch.go/file.go (call sequence facts + oracle); direction needed is implementation-accepts => model-accepts, searched by the oracle's independent recomputation on the real code.",
+        "streams": [("validate", 3000, 40000), ("iatvalidate", 3000, 40000)],
+        "level_text": "Proof: check-digit specification (unique digit making the 3-7-1 sum a multiple of 10, all sums), hash = sum mod 10^10, classification tables (five copies of the credit/debit lists agree, partition the standard codes, agree with CreditOrDebit - regenerated tables, kernel evaluation), and soundness of acceptance: a batch/file accepted by the model of Batch.verify / File.ValidateWith satisfies every clause of the property. The model may over-accept (opaque conjuncts only reject more). IAT batches: the same soundness theorem on the model of IATBatch.verify / IATEntryDetail.Validate (the Reader validates every IAT batch at its control record; the IAT totals use the IAT copy of the code lists, proved equal to the standard one). File.ValidateWith itself never validates the IAT/ADV batches of an in-memory file (known finding D6); ADV batches: oracle only.",
+        "level_note": "Trusted: the hand-written validation model mirrors batch.go/file.go (call sequence facts + oracle); direction needed is implementation-accepts => model-accepts, searched by the oracle's independent recomputation on the real code and by the validate / iatvalidate streams (real File.ValidateWith and IATBatch.Validate on generated and perturbed inputs x option sets vs the model, one direction).",
     },
     "C05": {
         "streams": [("create", 4000, 60000), ("filecreate", 3000, 40000)],
@@ -90,7 +90,7 @@ PROPS = {
     },
     "C15": {
         "props_modules": ["Ach.Props.Dispatch", "Ach.Props.C15"],
-        "streams": [("validate", 3000, 40000), ("reader", 2000, 40000)],
+        "streams": [("validate", 3000, 40000), ("reader", 2000, 40000), ("iatvalidate", 3000, 40000)],
         "level_text": "Proof: on the validation model with its option guards exactly as written, acceptance is monotone in the option set for every input and every pair O <= O' (batch and file level); regenerated census of every reference to the 15 relaxation flags in package ach: in acceptance code each is 'if !flag {may reject}' or 'if flag {return nil}' - an inverted or new tightening guard breaks the obligation. On the model of the Reader's record dispatcher, a record sequence Read accepts stays accepted when more of the record- and batch-level validations succeed and when a missing file header/control becomes allowed, so monotonicity of the validators lifts to Read. Independence of field extraction from the flags, and real texts: oracle over chains and all 2^15 sets on a corpus.",
         "level_note": "Trusted: record-level checks are opaque option-independent conjuncts in the model; their monotonicity is what the guard census stands for.",
     },
